@@ -157,12 +157,35 @@ def run_scratch(prop, quick_div=1):
     if not os.path.exists(binp):
         return 2, "build failed: " + out, None
     rc, out = sh(f"{binp} run {prop} quick", env=env, timeout=1800)
+    # as ./check does: the deep-chain step on an unoptimised build for C01 / C11
+    if rc == 0 and prop in ("C01", "C11"):
+        sh("cargo build --offline 2>&1 | tail -3", cwd=f"{SCRATCH}/sim", env=env)
+        dbg = f"{SCRATCH}/target/debug/rtcp-sim"
+        if os.path.exists(dbg):
+            rc2, out2 = sh(f"{dbg} deep {prop}", env=env, timeout=600)
+            out += out2
+            rc = rc2
     replay = None
     for l in out.splitlines():
         if l.startswith("VIOLATION "):
             replay = l.split("replay=")[1].strip()
             break
     return rc, out, replay
+
+
+def replay_with(release_bin, replay, env=None):
+    """Replay a file with the release binary, or with the unoptimised sibling for dev-profile files."""
+    try:
+        dev = '"profile": "dev"' in open(replay).read(4096)
+    except OSError:
+        dev = False
+    if dev:
+        dbg = release_bin.replace("/release/", "/debug/")
+        if release_bin == BIN:
+            sh(f"{VERIF}/check build")
+        prop = "C11" if '"property": "C11"' in open(replay).read(4096) else "C01"
+        return sh(f"{dbg} deep {prop} {replay}", env=env)
+    return sh(f"{release_bin} replay {replay}", env=env)
 
 
 def apply_edit(path, old, new):
@@ -196,8 +219,8 @@ def sensitivity(only):
         pristine = ""
         if rc == 1 and replay:
             # the replay must reproduce against the mutated copy and pass on the pristine tree
-            rc2, o2 = sh(f"{SCRATCH}/target/release/rtcp-sim replay {replay}", env=scratch_env())
-            rc3, o3 = sh(f"{BIN} replay {replay}")
+            rc2, o2 = replay_with(f"{SCRATCH}/target/release/rtcp-sim", replay, env=scratch_env())
+            rc3, o3 = replay_with(BIN, replay)
             pristine = f"replay: mutated rc={rc2}, pristine rc={rc3}"
             if rc2 != 1 or rc3 != 0:
                 verdict = "REPLAY INCONSISTENT"
@@ -253,7 +276,7 @@ def seeded(only):
             if rc == 1 and replay:
                 cls = [l for l in out.splitlines() if l.startswith("#   class=")]
                 # the replay must pass on the pristine tree
-                rc3, _ = sh(f"{BIN} replay {replay}")
+                rc3, _ = replay_with(BIN, replay)
                 caught_by[p] = {"class": cls[0][len("#   class="):][:200] if cls else "", "replay_passes_on_pristine_tree": rc3 == 0}
             elif rc != 0:
                 caught_by[p] = {"class": f"harness rc={rc}", "replay_passes_on_pristine_tree": False}
